@@ -70,6 +70,9 @@ func (c *c05Case) scenario() *Scenario {
 		case "rt.upload":
 			// the runtime has started to post its response and stalls in the middle of the body
 			rt = Script{Steps: []Step{{Op: "rt.next"}, {Op: "rt.response", ID: "cur", BodyMode: "transform", SlowBody: "never"}, {Op: "stall"}}}
+		case "rt.download":
+			// the runtime has asked for its event and stops reading while a 6 MiB event is still on its way to it
+			rt = Script{Steps: []Step{{Op: "rt.next", StallRead: true}, {Op: "stall"}}}
 		case "e1.upload":
 			// the extension stalls in the middle of the body of an init error report
 			exts[0].Steps = []Step{{Op: "ext.register", Events: c.extEvents(0)}, {Op: "ext.initerror", ErrType: "Extension.Half", BodyMode: "lit", Lit: `{"errorMessage":"half a report"}`, SlowBody: "never"}, {Op: "stall"}}
@@ -102,6 +105,9 @@ func (c *c05Case) scenario() *Scenario {
 	}
 	sc.Driver = append(sc.Driver, Step{Op: "flag", Flag: "stage", Count: stage})
 	f := Step{Op: "invoke", Tag: "F", Payload: &kit.Blob{Len: 50, Seed: 2, Kind: "json"}}
+	if c.Family == "stall" && c.Phase == "rt.download" {
+		f.Payload = &kit.Blob{Len: maxPayload, Seed: 2, Kind: "random"} // more than the socket buffers between the emulator and the runtime hold
+	}
 	if c.Family == "hook" && c.Hook == "fastinvoke.success" {
 		// the runtime answers at once; the report of that success to the waiting caller is held back until the function
 		// timeout has expired and its reset is over: the late report must not become the outcome of the next invocation
@@ -252,7 +258,7 @@ func c05Check(c c05Case) (out kit.Outcome) {
 	return out
 }
 
-var c05Phases = []string{"e1.register", "e1.next", "e1.event", "rt.firstnext", "rt.response", "rt.next", "rt.upload", "e1.upload"}
+var c05Phases = []string{"e1.register", "e1.next", "e1.event", "rt.firstnext", "rt.response", "rt.next", "rt.upload", "e1.upload", "rt.download"}
 
 func c05Gen(t *rapid.T) c05Case {
 	c := c05Case{Family: rapid.SampledFrom([]string{"stall", "stall", "race", "hook"}).Draw(t, "family"), T: rapid.SampledFrom([]int{150, 300}).Draw(t, "T"),
